@@ -131,6 +131,23 @@ def whitespace_family():
     return groups
 
 
+def word_bounds_family():
+    """Word with min / max / exact, through BOTH matchers of Word.parseImpl (a character set containing a blank cannot become a
+    regular expression: the character loop), alone, followed by another bounded Word, repeated up to the end of the text, and in
+    an alternation; every input over {a, b, blank} up to length 4"""
+    words = [("word", "ab ", None, 1, 2, 0, False), ("word", "ab ", None, 1, 0, 2, False), ("word", "a", "b ", 1, 3, 0, False),
+             ("word", "ab ", None, 2, 3, 0, False), ("word", "ab", None, 1, 2, 0, False), ("word", "ab", None, 1, 0, 2, False),
+             ("word", "ab", None, 2, 3, 0, False), ("word", "ab ", None, 1, 1, 0, False)]
+    inputs = gen.enum_inputs(4, "ab ") + ["abab,", "ab ab,b", "aaaaa", "a    b"]
+    groups = []
+    E = [("parse", False), ("peg",)]
+    for w in words:
+        for g in (w, ("and", w, w), ("and", ("plus", ("group", w)), ("stringend",)), ("and", w, ("lit", "b")),
+                  ("mf", ("and", w, ("lit", ",")), ("and", w, w, w))):
+            groups.append((g, {}, inputs, [("none",)], E))
+    return groups
+
+
 EACH_POOL = [("lit", "x"), ("lit", "c"), ("word", "12"), ("and", ("opt", ("lit", "a")), ("opt", ("lit", "b")), ("lit", "c")),
              ("and", ("lit", "a"), ("and", ("opt", ("lit", "b")), ("opt", ("lit", "c")))), ("and", ("and", ("opt", ("lit", "a")), ("opt", ("lit", "b"))), ("lit", "y")),
              ("opt", ("lit", "z")), ("opt", ("word", "12")), ("star", ("lit", "s")), ("plus", ("lit", "p")), ("group", ("and", ("lit", "g"), ("opt", ("lit", "h")))),
@@ -356,6 +373,7 @@ def correspond(ctx):
         enum_depth=2, enum_inputs=gen.enum_inputs(2 if not ctx.thorough else 3, "ab, ") + ["a b", "(a)", "ab ab", "((a) b)", "a,b"])
     groups += whitespace_family()
     groups += stop_skip_family()
+    groups += word_bounds_family()
     recs = run(ctx, groups)
     each_family(ctx)
     each_nullable_operand(ctx)
